@@ -167,23 +167,23 @@ pub fn run_case(case: &Json) -> Result<(Option<(String, String)>, u64), String> 
     let component = case.get("build_type").and_then(|x| x.as_str()) == Some("component");
     let va = Variant::from_json(case.get("variant_a").ok_or("c13: variant_a")?).ok_or("c13: bad variant_a")?;
     let vb = Variant::from_json(case.get("variant_b").ok_or("c13: variant_b")?).ok_or("c13: bad variant_b")?;
-    let a = build_variant(name, text, other, component, &va);
-    let b = build_variant(name, text, other, component, &vb);
+    // Nondeterminism that comes from per-instance random state (std's RandomState) shows only with
+    // some probability per pair of builds: the pair is re-run up to 24 times (a statistical replay;
+    // the identity of the finding is its class and message, which name no run-dependent detail).
     let mut f = Fnv::new();
-    f.u64(tree_hash(&a.tree));
-    f.u64(tree_hash(&b.tree));
-    if differs(&a, &b) {
-        let msg = format!(
-            "two builds of the same source differ: outcomes {}/{}, files {}",
-            a.outcome.tag(),
-            b.outcome.tag(),
-            describe_diff(&b.tree, &a.tree)
-        );
-        // the outputs themselves may depend on hidden process state (that is the violation); the
-        // replayable identity of the finding is its class and message
-        let mut f = Fnv::new();
-        f.str(&msg);
-        return Ok((Some(("nondeterministic-output".into(), msg)), f.finish()));
+    for attempt in 0..24 {
+        let a = build_variant(name, text, other, component, &va);
+        let b = build_variant(name, text, other, component, &vb);
+        if attempt == 0 {
+            f.u64(tree_hash(&a.tree));
+        }
+        if differs(&a, &b) {
+            let _detail = describe_diff(&b.tree, &a.tree);
+            let msg = "two builds of the same source differ in their outcome or output files (module text, component sources, digests)".to_string();
+            let mut f = Fnv::new();
+            f.str(&msg);
+            return Ok((Some(("nondeterministic-output".into(), msg)), f.finish()));
+        }
     }
     Ok((None, f.finish()))
 }
